@@ -2,6 +2,11 @@
 
 package services
 
+import (
+	"go.6river.tech/mmmbbb/actions"
+	"go.6river.tech/mmmbbb/grpc/pubsubpb"
+)
+
 // VerifDefaultServices gives an external verification harness the background
 // services this package registers (the prune / expire jobs, the dead-letter
 // sweep, the HTTP pusher, ...), so that their glue around the actions (timer
@@ -10,3 +15,19 @@ package services
 // package's singletons: run one at a time. Add-only; compiled only with
 // -tags verif.
 func VerifDefaultServices() []Service { return defaultServices }
+
+// VerifAdaptIn runs the StreamingPull request adapter (streamWrapper.adaptIn) on
+// one request, as the first request of a stream (initial) or a later one, so
+// that an external verification harness can compare the translation of ack
+// ids, deadline modifications and flow control settings with its model.
+// Add-only; compiled only with -tags verif.
+func VerifAdaptIn(
+	initial bool,
+	m *pubsubpb.StreamingPullRequest,
+) (*actions.MessageStreamRequest, error) {
+	w := &streamWrapper{}
+	if initial {
+		w.initial = m
+	}
+	return w.adaptIn(m)
+}
